@@ -5,7 +5,7 @@ CONSTANTS
   Calls <- Calls_2x21
   ChanCap = 1
   MaxTasks = 3
-  Cancellable = {}
+  Cancellable = {"s2"}
   RegisterFirst = TRUE
 INVARIANTS
   TypeOK
